@@ -30,6 +30,9 @@ def mode_table(F, R, name):
         for d, v in atoms:
             if "runAsElevated" in d:
                 row.append(("elevated", v))
+            elif d.startswith("discr(param:access_control_rules.@Some.0") and isinstance(v, str) and set(v.split("|")) <= {"Audit", "Enforce", "Disabled"}:
+                # `match mode { Audit => .., _ => .. }` instead of `mode == Audit`
+                row.append(("mode==Audit", v == "Audit") if "Audit" not in v.split("|") or v == "Audit" else ("?" + d, v))
             elif d.startswith("discr(param:access_control_rules"):
                 row.append(("rules", v))
             elif "is_allowed" in d:
@@ -38,6 +41,8 @@ def mode_table(F, R, name):
                 row.append(("mode==" + d.split("variant:%s::" % MODE)[1].rstrip(")"), v))
             else:
                 row.append(("?" + d, v))
+        rank = {"elevated": 0, "rules": 1, "allowed": 2}
+        row = sorted(set(row), key=lambda x: (rank.get(x[0], 3 if x[0].startswith("mode==") else 4), str(x)))
         table.add((tuple(row), res if isinstance(res, str) else str(res)))
     return table
 
